@@ -51,6 +51,14 @@ def fundingStep (s : State) (ws : List String) : State × String :=
         | .err => "err"
         | .ok i nout per last f => s!"ok in {i.id} n {nout} per {per} last {last} f {f}")
     | _ => (s, "bad-op")
+  | "splitfail" :: rest =>
+    match nats? rest with
+    | some [h, n, m, fee] =>
+      let r := s.splitPoolFails h n m fee
+      (r.1, match r.2 with
+        | .none => "none"
+        | _ => "err")
+    | _ => (s, "bad-op")
   | "release" :: rest =>
     match nats? rest with
     | some hs =>
